@@ -441,3 +441,10 @@ def r13_6(ctx):
     from .c16 import phase_separation
 
     phase_separation(ctx)
+
+
+@rule("R13.7", "C13", "the attribute flags of a part never survive into the next one: reset() restores them on every path, whatever the rest of the transformer's state looks like", min_instances=3)
+def r13_7(ctx):
+    from .c14 import reset_is_unconditional
+
+    reset_is_unconditional(ctx)
